@@ -569,6 +569,7 @@ class BatchResponse(AbstractResponse):
         Extends the batch with the `responses`.
         """
 
+        responses = list(responses)
         self._add_ids(*(resp.id for resp in responses))
         self._responses.extend(responses)
 
@@ -678,6 +679,7 @@ class BatchRequest(AbstractRequest):
         Extends a batch with `requests`.
         """
 
+        requests = list(requests)
         self._add_ids(*(resp.id for resp in requests))
         self._requests.extend(requests)
 
